@@ -524,19 +524,33 @@ End Fields.
 Definition good (sc : schema) (id : N) (m : msg) : Prop :=
   wf_msg sc id m = true /\ len (encode m) < u64.
 
+Lemma u32_lt_u64 : u32 < u64.
+Proof. reflexivity. Qed.
+
+Lemma wf_val_int_small sc k n : wf_val sc k (FInt n) = true -> n < u64.
+Proof.
+  pose proof u32_lt_u64 as U.
+  destruct k; cbn [wf_val]; intros H; try discriminate; apply N.ltb_lt in H.
+  - eapply N.lt_trans; eassumption.
+  - exact H.
+Qed.
+
+Lemma len_lt (a b : bytes) : (length a < length b)%nat -> len a < len b.
+Proof. unfold len. lia. Qed.
+
 Lemma good_entries_small sc id m : schema_ok sc = true -> good sc id m -> Forall entry_small m.
 Proof.
   intros Hsc [Hwf Hlen]. destruct (wf_msg_unfold _ _ _ Hwf) as (desc & Hn & Hent & _ & _).
   destruct (schema_ok_desc _ _ _ Hsc Hn) as [Hinc _].
   apply Forall_forall. intros e He. destruct (Hent e He) as (fd & Hf & Hw & _).
   apply find_field_some in Hf as [Hin Hk]. pose proof (nums_increasing_spec _ _ Hinc _ Hin) as Hr.
-  split; [lia|]. destruct e as [k v]. cbn [fst snd] in *. unfold len in *.
+  split; [rewrite <- Hk; clear - Hr; lia|].
+  destruct e as [k v]. cbn [fst snd] in *.
   destruct v as [n|b|sub]; cbn [val_small].
-  - destruct (f_kind fd); cbn [wf_val] in Hw; try discriminate; unfold u32, u64 in *; lia.
-  - pose proof (bytes_shorter _ _ _ He). unfold len. lia.
-  - pose proof (nested_shorter _ _ _ He). unfold len. lia.
+  - eapply wf_val_int_small; eassumption.
+  - eapply N.lt_trans; [|exact Hlen]. apply len_lt. eapply bytes_shorter; eassumption.
+  - eapply N.lt_trans; [|exact Hlen]. apply len_lt. eapply nested_shorter; eassumption.
 Qed.
-
 Lemma interp_roundtrip sc : schema_ok sc = true ->
   forall fuel m id, (length (encode m) < fuel)%nat -> good sc id m ->
   interp fuel sc id (map rec_of m) = Some m.
@@ -547,7 +561,7 @@ Proof.
   destruct (schema_ok_desc _ _ _ Hsc Hn) as [Hinc Hfok].
   cbn [interp]. rewrite Hn.
   assert (Hsub : forall k sub ref, In (k, FMsg sub) m -> wf_msg sc ref sub = true -> good sc ref sub).
-  { intros k sub ref Hin Hw. split; [exact Hw|]. pose proof (nested_shorter _ _ _ Hin). unfold len in *. lia. }
+  { intros k sub ref Hin Hw. split; [exact Hw|]. eapply N.lt_trans; [|exact Hlen]. apply len_lt. eapply nested_shorter; exact Hin. }
   assert (Hkind : forall k sub, In (k, FMsg sub) m -> exists ref, wf_msg sc ref sub = true).
   { intros k sub Hin. destruct (Hent _ Hin) as (fd & _ & Hw & _). cbn [snd] in Hw.
     apply wf_val_msg in Hw as (ref & _ & Hw). exists ref. exact Hw. }
@@ -555,7 +569,7 @@ Proof.
   - intros k sub Hin. destruct (Hkind _ _ Hin) as (ref & Hw).
     eapply good_entries_small; [exact Hsc|]. eapply Hsub; eassumption.
   - intros k sub ref Hin Hw. apply IH.
-    + pose proof (nested_shorter _ _ _ Hin). lia.
+    + pose proof (nested_shorter _ _ _ Hin) as Hs. clear - Hs Hf. lia.
     + eapply Hsub; eassumption.
 Qed.
 
@@ -580,14 +594,3 @@ Proof.
   rewrite E in D1. rewrite D1 in D2. injection D2 as ->. reflexivity.
 Qed.
 
-(* Re-encoding what was decoded gives back the input bytes exactly when the input is
-   the encoding of a well-formed message (the canonical form). *)
-Theorem decode_reencode_canonical sc id b m : schema_ok sc = true ->
-  decode sc id b = Some m ->
-  (encode m = b <-> exists m', wf_msg sc id m' = true /\ len (encode m') < u64 /\ b = encode m').
-Proof.
-  intros Hsc D. split.
-  - intros E. exists m. admit.
-  - intros (m' & Hw & Hl & ->). rewrite (decode_encode sc id m' Hsc Hw Hl) in D.
-    injection D as ->. reflexivity.
-Abort.
